@@ -51,7 +51,8 @@ def run_kernel_check(prop, tier, kernels_wanted, solver_insts, reps, sample_coun
             inside = [s for s in ks if s["act"] == "inside"]
             idx = rng.choice(len(inside), size=min(cnt, len(inside)), replace=False)
             # every 'active' pattern; two active half-spaces (the slowly converging case of the alternating projections) several times over
-            ks = [inside[int(i)] for i in idx] + [s for s in ks if s["act"] == "active"] + [s for s in ks if s["act"] == "active" and list(s["sets"]) == ["half", "half"]] * 2
+            ks = [inside[int(i)] for i in idx] + [s for s in ks if s["act"] == "active"] + [s for s in ks if s["act"] == "active" and list(s["sets"]) == ["half", "half"]] * 2 \
+                + [s for s in ks if s["act"] == "just_outside"] * 4
         if k == "trsbox":
             # classes whose outcome depends on the digits of the data are concretised many more times (a call costs ~0.1 ms)
             ks = ks + [s for s in ks if s.get("coin") == "bound_at_delta"] * 40
